@@ -212,8 +212,8 @@ func (c *ECChain) UnmarshalCBOR(r io.Reader) error {
 	if err := chain.UnmarshalCBOR(r); err != nil {
 		return err
 	}
+	*c = ECChain{}
 	if length := len(chain); length > 0 {
-		*c = ECChain{}
 		c.TipSets = make([]*TipSet, length)
 		for i := range length {
 			c.TipSets[i] = &chain[i]
